@@ -1958,3 +1958,16 @@ TABLE["C18"] += [
     B("scalar-check-with-a-de-morgan-slip", {"K6", "K10"}, (H, "  if (m!=1 || n!=1)\n", "  if (!(m==1 || n==1))\n")),
     N("scalar-check-negated-conjunction", (H, "  if (m!=1 || n!=1)\n", "  if (!(m==1 && n==1))\n")),
 ]
+TABLE["C12"] += [
+    B("tabs-expanded-before-parsing-again", {"L8"},
+      (IP + "module.py", "    rule.parseWithTabs()\n", "")),
+    N("tabs-kept-through-the-defining-expression",
+      (IP + "module.py", "    rule.parseWithTabs()\n", ""),
+      (IP + "module.py", "    rule.ignore(cppStyleComment)\n", "    rule.ignore(cppStyleComment).parseWithTabs()\n")),
+    B("tabs-kept-on-a-copy-of-the-rule", {"L8"},
+      (IP + "module.py", "    rule.parseWithTabs()\n", "    rule.copy().parseWithTabs()\n")),
+    B("default-value-look-ahead-inside-the-copy", {"L5"},
+      (IP + "tokens.py", "DEFAULT_ARG = originalTextFor(\n    OneOrMore(", "DEFAULT_ARG = originalTextFor(\n    ~EQUAL + OneOrMore(")),
+    N("default-value-look-ahead-in-front-of-the-copy",
+      (IP + "tokens.py", "DEFAULT_ARG = originalTextFor(\n    OneOrMore(", "DEFAULT_ARG = ~EQUAL + originalTextFor(\n    OneOrMore(")),
+]
